@@ -1700,7 +1700,24 @@ def gen_pon(g, tier):
                 j += 1
 
 
+def gen_pon_carry(g, tier):
+    """PON uses the whole 128-bit IV as a counter: the carry out of the low 64 bits is taken when the low half wraps
+    inside the frame.  The wrap is placed at every block position 1..66 of frames long enough for the by-16 loop."""
+    for w in range(1, 67):
+        if tier == "quick" and w > 34 and w % 2:
+            continue
+        pli = [1040, 1100, 528, 2052][w % 4] if w <= 32 else 1100
+        plen = (pli + 3) // 4 * 4
+        if w * 16 >= plen:
+            continue
+        frame = pon_frame(g, pli, plen)
+        iv = g.rnd(8) + ((1 << 64) - w).to_bytes(8, "big")
+        g.add(11, 19, "PON/ctr64-carry", dir=1, order=2, key=g.rnd(16), iv=iv, msg=frame + g.rnd(w % 3), coff=8, clen=plen, hoff=0,
+              hlen=8 + plen, tag=8, inplace=1, ivcls="lo64-wrap-%d" % w)
+
+
 def gen_c03(g, tier):
+    gen_pon_carry(g, tier)
     gen_gcm(g, tier, 5, 9)
     gen_gcm(g, tier, 28, 49)
     gen_ccm(g, tier)
